@@ -150,7 +150,38 @@ def chainPure (P : Powers) (exc : Nat → Nat → Bool) (K b : Nat) : Expr → B
 
 def wrap (b : Bool) (p : PExpr) : PExpr := if b then PExpr.paren p else p
 
-/-- the printer on operator trees: children first, parentheses by the local rule -/
+/-- where parentheses are NECESSARY for the Pratt parser to rebuild the tree (the weakest sufficient local rule):
+    an operand must bind tighter than the right binding in force, a prefix operator must not capture what follows -/
+def need (P : Powers) : Head → Head → Nat → Bool
+  | _, .atom, _ => false
+  | .atom, _, _ => false
+  | .pre K, .bin k, _ => decide (P.bp k ≤ P.pbp K)
+  | .pre K, .pre k, _ => decide (P.pbp K > P.pbp k)
+  | .bin K, .pre k, _ => decide (P.bp K > P.pbp k)
+  | .bin K, .bin k, idx => decide (P.bp K > P.bp k) || (decide (P.bp K = P.bp k) && decide (idx > 0))
+
+/-- every operator head of the tree satisfies `ok` (e.g. belongs to the real table) -/
+def headsIn (ok : Head → Bool) : Expr → Bool
+  | .atom _ => true
+  | .bin k l r => ok (.bin k) && headsIn ok l && headsIn ok r
+  | .pre k x => ok (.pre k) && headsIn ok x
+
+/-- a bracket rule `br` SUFFICES on the heads satisfying `ok`: it parenthesises wherever that is necessary —
+    except at the known exception (a right operand `k` under `K` with `exc K k` and a pure chain: finding
+    mul-right-brackets). More parentheses than necessary are allowed. (Child index 0 or 1: operator trees.) -/
+def Suff (P : Powers) (exc : Nat → Nat → Bool) (br : Head → Head → Nat → Bool → Bool) (ok : Head → Bool) : Prop :=
+  ∀ (p c : Head) (i : Nat) (pure : Bool), ok p = true → ok c = true → i < 2 → need P p c i = true →
+    br p c i pure = true ∨ (∃ K k, p = .bin K ∧ c = .bin k ∧ i > 0 ∧ exc K k = true ∧ pure = true)
+
+/-- the printer on operator trees with an arbitrary local bracket rule: children first, parentheses by `br` -/
+def annotW (P : Powers) (exc : Nat → Nat → Bool) (br : Head → Head → Nat → Bool → Bool) : Expr → PExpr
+  | .atom n => .atom n
+  | .bin k l r =>
+    .bin k (wrap (br (.bin k) l.head 0 (chainPure P exc k (P.bp k) l)) (annotW P exc br l))
+      (wrap (br (.bin k) r.head 1 (chainPure P exc k (P.bp k) r)) (annotW P exc br r))
+  | .pre k x => .pre k (wrap (br (.pre k) x.head 0 true) (annotW P exc br x))
+
+/-- the printer with the hand-written rule `nb` -/
 def annot (P : Powers) (exc : Nat → Nat → Bool) : Expr → PExpr
   | .atom n => .atom n
   | .bin k l r =>
